@@ -114,6 +114,7 @@ def run(F, R, ctx):
         jitmodel.branch_facts_rule(F, R, "C02.f")
         jitmodel.assigned_local_rule(F, R, "C02.k")
     slice_guard_rule(F, R)
+    bounds_strictness_rule(F, R)
     arg_conversion_rule(F, R)
     select_rule(F, R)
     native_entry_arity_rule(F, R)
@@ -171,8 +172,8 @@ def run(F, R, ctx):
 IDX_RX = (r"\{impl Index(Mut)?<I> for (Vec<T,A>|\[T\]|str|String)\}::index(_mut)?$|\{impl \[T\]\}::(swap|split_at|split_at_mut)$|"
           r"Vec<T,A>\}::(remove|insert|swap_remove|split_off)$|\{impl String\}::(insert|remove|split_off|replace_range|insert_str)$|"
           # the persistent vector behind immutable vectors (steel-imbl) and SmallVec: the methods that assert on their position
-          r"steel_imbl::vector::\{impl GenericVector<A,P>\}::(set|update|insert|remove|split_off|split_at|take|slice)$|"
-          r"\{impl Index(Mut)?<usize> for GenericVector<A,P>\}::index(_mut)?$|smallvec::\{impl Index(Mut)?<I> for SmallVec<A>\}::index(_mut)?$")
+          r"(?:steel_imbl|imbl|im|im_rc)::vector::\{impl (?:Generic)?Vector<[^>]*>\}::(set|update|insert|remove|split_off|split_at|take|slice)$|"
+          r"\{impl Index(Mut)?<usize> for (?:Generic)?Vector<[^>]*>\}::index(_mut)?$|smallvec::\{impl Index(Mut)?<I> for SmallVec<A>\}::index(_mut)?$")
 
 # positions that name an *element* (must be < len); the others name a cut point (<= len is fine)
 ELEM_RX = r"::index(_mut)?$|::(set|update|remove|swap|swap_remove)$"
@@ -614,3 +615,83 @@ def lookahead_cursor_rule(F, R):
                    "panics (aborts under the JIT) instead of yielding the replacement character" % (fn.short(), why, e[3]),
                    fn.loc(e[3]), sample=True)
     R.floor("C07.k", "subtractions from Peekable.idx", n, 3)
+
+
+def bounds_strictness_rule(F, R):
+    R.rule("C07.t", "wherever the repository compares a position with a length and then uses the position (contradiction rule, all "
+                    "of steel-core, not only native primitives): for every element access (slice / Vec / persistent-vector / "
+                    "SmallVec index, set, remove, swap; MIR bounds checks included) that is dominated by a branch on a comparison "
+                    "between the plain position and a plain len(), the relation that holds on the edge leading to the access is "
+                    "`position < length` (cut positions — insert, split, take — may equal the length): a test written `>` "
+                    "instead of `>=` lets the one-past-the-end position through to an operation that panics")
+    n = 0
+    for name, fn in sorted(F.fns.items()):
+        if not name.startswith("steel::"):
+            continue
+        sites = []
+        for i, b in enumerate(fn.blocks):
+            if b["c"]:
+                continue
+            if b["k"] == "call" and re.search(IDX_RX, b["callee"]) and len(b["args"]) >= 2:
+                if b["targs"] and any("Range" in t for t in b["targs"]):
+                    continue
+                sites.append((i, [t for a in b["args"][1:2] for t in lib.TOK.findall(a)],
+                              bool(re.search(ELEM_RX, b["callee"])), lib.split_path(b["callee"])[-1]))
+            elif b["k"] == "assert" and b.get("what") == "bounds":
+                idx = [e[2] for e in b["e"] if e[0] == "der" and len(e) >= 5 and e[3] == "Lt" and e[4] == 0]
+                sites.append((i, [t for a in idx for t in lib.TOK.findall(a)], True, "[]"))
+        if not sites:
+            continue
+        maps = _backward(fn)
+        mvonly = (maps[0], {}, {})
+        lens = {d for d, c in maps[2].items() if re.search(r"::len$|::length$", c["callee"])}
+        cmp_ops, cmp_opname = {}, {}
+        for blk2 in fn.blocks:
+            for e in blk2["e"]:
+                if e[0] == "der" and len(e) >= 5:
+                    if e[3] == "PtrMetadata":
+                        lens.add(e[1])
+                    elif e[3] in ("Lt", "Le", "Gt", "Ge"):
+                        cmp_ops.setdefault(e[1], {}).setdefault(e[4], set()).update(lib.TOK.findall(lib._norm(e[2])))
+                        cmp_opname[e[1]] = e[3]
+        if not cmp_ops:
+            continue
+        dom = fn.dominators()
+        for i, toks, elem, what in sites:
+            if not toks:
+                continue
+            idx_direct = set()
+            for t in toks:
+                idx_direct |= _origins(fn, t, mvonly)
+            rels = []
+            for sb in dom[i]:
+                blk = fn.blocks[sb]
+                if sb == i or blk["k"] != "switch" or blk["on"] != "bool":
+                    continue
+                loc = re.match(r"_\d+", blk.get("place", "").strip("()*"))
+                if not loc:
+                    continue
+                for c_ in [loc.group(0)] + [x for x in _origins(fn, loc.group(0), mvonly) if x in cmp_ops]:
+                    ops = cmp_ops.get(c_)
+                    if not ops:
+                        continue
+                    for a_, b_ in ((0, 1), (1, 0)):
+                        dl, dp = set(), set()
+                        for t in ops.get(a_, ()):
+                            dl |= _origins(fn, t, mvonly)
+                        for t in ops.get(b_, ()):
+                            dp |= _origins(fn, t, mvonly)
+                        if dl & lens and dp & idx_direct and not (dp & lens):
+                            rels.append(_relation_on_the_way(fn, sb, i, cmp_opname[c_], b_))
+            if not rels:
+                continue
+            n += 1
+            good = {"Lt"} if elem else {"Lt", "Le"}
+            ok = any(r in good or r is None for r in rels)
+            sym = {"Lt": "<", "Le": "<=", "Gt": ">", "Ge": ">=", None: "?"}
+            R.inst("C07.t", "%s / %s: the bounds comparison admits only positions the access accepts" % (fn.short(), what), ok,
+                   "%s tests the position against a length and then performs `%s` (line %s) on the edge where only `position %s "
+                   "length` is known: the position one past the end reaches an access that panics" % (
+                       fn.short(), what, fn.blocks[i].get("line"), "/".join(sorted(sym[r] for r in rels))),
+                   fn.loc(fn.blocks[i].get("line")), sample=n <= 3)
+    R.floor("C07.t", "accesses dominated by a plain position/length comparison", n, 12)
